@@ -5,11 +5,14 @@
 package main
 
 import (
+	"bytes"
 	"crypto/sha256"
 	"encoding/hex"
 	"flag"
 	"fmt"
 	"os"
+	"strings"
+	"sync/atomic"
 	"time"
 
 	"github.com/LiskHQ/lisk-engine/pkg/blockchain"
@@ -31,7 +34,8 @@ type Step struct {
 	Class    string   `json:"class"`
 	Fin      uint32   `json:"fin"`
 	Chain    []string `json:"chain"`
-	Bodies   []string `json:"bodies"` // per height: digest of the FULL block as read from the database (no cache), or "ERR: …"
+	DupOwner *uint32  `json:"dup_owner,omitempty"` // dup-tx scenario: height of the finalized block that owns the repeated transaction
+	Bodies   []string `json:"bodies"`              // per height: digest of the FULL block as read from the database (no cache), or "ERR: …"
 	Events   []exh.Ev `json:"events"`
 	TempKeys int      `json:"temp"`
 }
@@ -44,19 +48,22 @@ type Hist struct {
 	Digests map[string]string `json:"digests"` // block ID -> digest of the full encoded block, recorded when the block was built
 	// two-node histories only
 	SyncKind string `json:"sync_kind,omitempty"`
+	Attempts int    `json:"sync_attempts,omitempty"`
+	Shows    bool   `json:"sync_shows_kind,omitempty"`
 	SyncRes  string `json:"sync_result,omitempty"`
 	SyncTip  bool   `json:"sync_reached_peer_tip,omitempty"`
 	SyncHang bool   `json:"sync_hang,omitempty"`
 }
 
 type drv struct {
-	n       *exh.Node
-	r       *hx.Rng
-	h       *Hist
-	scripts map[string]*exh.Script             // ABI answers per block ID: re-applying a block reproduces its events
-	txAt    map[uint32]*blockchain.Transaction // first transaction of the block applied at a height (dup-tx scenario)
-	sticky  *exh.Validator                     // current run: several consecutive blocks by the same validator (finality jumps)
-	run     int
+	n        *exh.Node
+	r        *hx.Rng
+	h        *Hist
+	scripts  map[string]*exh.Script // ABI answers per block ID: re-applying a block reproduces its events
+	dupOwner *uint32
+	txAt     map[uint32]*blockchain.Transaction // first transaction of the block applied at a height (dup-tx scenario)
+	sticky   *exh.Validator                     // current run: several consecutive blocks by the same validator (finality jumps)
+	run      int
 }
 
 func (d *drv) observe(s *Step) {
@@ -199,7 +206,7 @@ func (d *drv) applyInvalid() {
 func (d *drv) deleteTip(save bool, what string) bool {
 	n := d.n
 	tip := n.Tip()
-	s := &Step{Op: "delete", H: tip.Header.Height, Save: save, OK: true, What: what}
+	s := &Step{Op: "delete", H: tip.Header.Height, Save: save, OK: true, What: what, DupOwner: d.dupOwner}
 	n.ABI.S = &exh.Script{}
 	if d.r.Intn(12) == 0 {
 		n.ABI.S = &exh.Script{FailRevert: true}
@@ -234,11 +241,13 @@ func (d *drv) dupTx() bool {
 	n := d.n
 	fin, _ := n.Finalized()
 	var tx *blockchain.Transaction
+	owner := uint32(0)
 	for h := uint32(1); h <= fin; h++ {
 		if t, ok := d.txAt[h]; ok {
 			if hd := n.HeaderAt(h); hd != nil {
 				if blk, err := n.Chain.DataAccess().GetBlockByHeight(h); err == nil && len(blk.Transactions) > 0 && string(blk.Transactions[0].ID) == string(t.ID) {
 					tx = t
+					owner = h
 				}
 			}
 		}
@@ -256,7 +265,102 @@ func (d *drv) dupTx() bool {
 	if s.Class != "ok" {
 		return false
 	}
-	return d.deleteTip(false, "dup-tx: delete the block that repeated a finalized block's transaction")
+	d.dupOwner = &owner
+	ok := d.deleteTip(false, "dup-tx: delete the block that repeated a finalized block's transaction")
+	d.dupOwner = nil
+	return ok
+}
+
+// probed runs fn (a call into Executer.process) and records every block step it performs: the ABI double's InitStateMachine
+// hook fires at the start of each processValidated / deleteBlock, where the state left by the previous step is observed.
+func (d *drv) probed(label string, fn func() exh.Result) exh.Result {
+	n := d.n
+	var pending *Step
+	finish := func() {
+		if pending == nil {
+			return
+		}
+		if pending.Op == "apply" {
+			pending.OK = hex.EncodeToString(n.Tip().Header.ID) == pending.ID
+			pending.Class = "rejected"
+			if pending.OK {
+				pending.Class = "ok"
+			}
+		} else {
+			pending.Class = "ok"
+			if n.Tip().Header.Height >= pending.H {
+				pending.Class, pending.OK = "refused", false
+			}
+		}
+		d.observe(pending)
+		pending = nil
+	}
+	n.ABI.OnInit = func(hd *blockchain.BlockHeader) {
+		finish()
+		tip := n.Tip().Header
+		id := hex.EncodeToString(hd.ID)
+		if hex.EncodeToString(tip.ID) == id {
+			pending = &Step{Op: "delete", H: tip.Height, OK: true, What: label + ": delete"}
+			n.ABI.S = &exh.Script{}
+			return
+		}
+		pending = &Step{Op: "apply", ID: id, P: d.postPrecommit(&blockchain.Block{Header: hd}), OKImpl: true, What: label + ": apply"}
+		n.ABI.S = d.scripts[id]
+	}
+	res := fn()
+	n.ABI.OnInit = nil
+	finish()
+	return res
+}
+
+// tieBreak: the tip T was received late; a competing block for the same height and parent arrives in its own slot through
+// Executer.process: the tip is deleted, the competitor applied, and — if it is invalid — the old tip re-applied.
+func (d *drv) tieBreak(invalid bool) {
+	n := d.n
+	nowSlot := n.Slot(uint32(time.Now().Unix()))
+	tipSlot := n.Slot(n.Tip().Header.Timestamp)
+	if nowSlot-tipSlot < 3 {
+		return
+	}
+	parent := n.Tip()
+	n.ABI.S = d.script(parent.Header.Height + 1)
+	T := n.NextValid(exh.Build{SkipSlots: nowSlot - 2 - tipSlot})
+	d.remember(T)
+	d.scripts[hex.EncodeToString(T.Header.ID)] = n.ABI.S
+	s := &Step{Op: "apply", ID: hex.EncodeToString(T.Header.ID), OK: true, P: d.postPrecommit(T), What: "tie-break: old tip"}
+	s.Class = exh.ErrClass(n.ProcessValidated(T, false))
+	d.observe(s)
+	if s.Class != "ok" {
+		return
+	}
+	// the competitor is built on the parent: take the tip off, build, put it back (recorded steps like any other)
+	ds := &Step{Op: "delete", H: T.Header.Height, OK: true, What: "tie-break: build the competitor on the parent"}
+	n.ABI.S = &exh.Script{}
+	ds.Class = exh.ErrClass(n.DeleteBlock(n.Tip(), false))
+	d.observe(ds)
+	if ds.Class != "ok" {
+		return
+	}
+	n.ABI.S = d.script(T.Header.Height)
+	T2 := n.NextValid(exh.Build{SkipSlots: nowSlot - 1 - n.Slot(parent.Header.Timestamp)})
+	what := "tie-break through Executer.process, valid competitor"
+	if invalid {
+		T2.Header.Signature[7] ^= 4
+		T2.Header.Init()
+		what = "tie-break through Executer.process, competitor with an invalid signature"
+	}
+	d.remember(T2)
+	d.scripts[hex.EncodeToString(T2.Header.ID)] = n.ABI.S
+	n.ABI.S = d.scripts[hex.EncodeToString(T.Header.ID)]
+	rs := &Step{Op: "apply", ID: hex.EncodeToString(T.Header.ID), OK: true, P: d.postPrecommit(T), What: "tie-break: old tip back"}
+	rs.Class = exh.ErrClass(n.ProcessValidated(T, false))
+	d.observe(rs)
+	if rs.Class != "ok" || bytes.Equal(T2.Header.GeneratorAddress, T.Header.GeneratorAddress) {
+		return
+	}
+	late := time.Unix(int64(n.Exec.GetSlotTime(n.Slot(T.Header.Timestamp)+2)), 0)
+	n.Exec.VerifC03SetLastBlockReceived(&late)
+	d.probed(what, func() exh.Result { return n.Process(T2) })
 }
 
 // fork: delete k tips (saved to temp as fast sync does), grow a competing branch on other slots; then either keep it and
@@ -312,6 +416,37 @@ func (d *drv) fork() {
 // callback — all inside process, i.e. with the Executer's syncing flag set.  Every block step of the sync is observed:
 // the ABI double's InitStateMachine hook fires at the start of every processValidated / deleteBlock, where the state
 // left by the previous step is recorded.
+// syncShowsKind: the run shows the behaviour its kind is meant to exercise (used for retries; the check applies the same rule).
+func syncShowsKind(h *Hist) bool {
+	if h.SyncHang {
+		return false
+	}
+	switch h.SyncKind {
+	case "fast", "block":
+		return h.SyncTip
+	case "deep":
+		return strings.Contains(h.SyncRes, "lower than finalized")
+	case "poison":
+		// the node's application rejected a downloaded block (scripted ABI failure) and the real restoreBlocks ran: deletions
+		// after the rejected apply
+		rejected := -1
+		for i, s := range h.Steps {
+			if strings.Contains(s.What, "REJECTED by the node") {
+				rejected = i
+			}
+		}
+		if h.SyncRes != "abi" || rejected < 0 {
+			return false
+		}
+		for _, s := range h.Steps[rejected:] {
+			if s.Op == "delete" {
+				return true
+			}
+		}
+	}
+	return false
+}
+
 // kind: "fast" (successful fast sync), "poison" (the node rejects one of the downloaded blocks: the REAL restoreBlocks runs),
 // "deep" (the node's own fork is long enough to have finalized past the fork point: the common block is below the finalized
 // height), "block" (the peer is more than two rounds ahead: real block sync).
@@ -334,8 +469,13 @@ func syncViaProcess(r *hx.Rng, hi int, kind string) *Hist {
 	if err != nil {
 		panic(err)
 	}
-	defer a.DB.Close()
-	defer b.DB.Close()
+	abandoned := false // the sync did not return in time: its goroutine still owns both nodes, nothing is closed under it
+	defer func() {
+		if !abandoned {
+			a.DB.Close()
+			b.DB.Close()
+		}
+	}()
 	h := &Hist{K: "hist", N: nv, Genesis: hex.EncodeToString(a.Genesis.Header.ID), SyncKind: kind}
 	d := &drv{n: a, r: r, h: h, scripts: map[string]*exh.Script{}, txAt: map[uint32]*blockchain.Transaction{}}
 	a.DrainEvents()
@@ -408,11 +548,15 @@ func syncViaProcess(r *hx.Rng, hi int, kind string) *Hist {
 	if err := a.StartNet(); err != nil {
 		panic(err)
 	}
-	defer a.StopNet()
 	if err := b.StartNet(); err != nil {
 		panic(err)
 	}
-	defer b.StopNet()
+	defer func() {
+		if !abandoned {
+			a.StopNet()
+			b.StopNet()
+		}
+	}()
 	if err := a.ConnectTo(b); err != nil {
 		panic(err)
 	}
@@ -440,7 +584,11 @@ func syncViaProcess(r *hx.Rng, hi int, kind string) *Hist {
 		pending = nil
 	}
 	a.ABI.S = nil
+	var frozen atomic.Bool
 	a.ABI.OnInit = func(hd *blockchain.BlockHeader) {
+		if frozen.Load() {
+			return
+		}
 		finish()
 		tip := a.Tip().Header
 		if hex.EncodeToString(tip.ID) == hex.EncodeToString(hd.ID) {
@@ -470,8 +618,14 @@ func syncViaProcess(r *hx.Rng, hi int, kind string) *Hist {
 		d.observe(s)
 		h.SyncTip = hex.EncodeToString(a.Tip().Header.ID) == hex.EncodeToString(b.Tip().Header.ID)
 	case <-time.After(40 * time.Second):
-		a.ABI.OnInit = nil
+		// abandon: the goroutine may still be inside the sync; it keeps its nodes (never closed), its probe is frozen so that it
+		// cannot touch the history that is about to be written
+		abandoned = true
+		frozen.Store(true)
 		h.SyncHang = true
+		steps := make([]Step, len(h.Steps))
+		copy(steps, h.Steps)
+		return &Hist{K: "hist", N: nv, Genesis: h.Genesis, SyncKind: kind, SyncHang: true, Steps: steps, Digests: nil}
 	}
 	// the first block processed after the sync
 	if !h.SyncHang {
@@ -502,14 +656,24 @@ func main() {
 	}()
 	kinds := []string{"fast", "poison", "deep", "block"}
 	for si := 0; si < *syncs; si++ {
-		hh := syncViaProcess(r, si, kinds[si%len(kinds)])
-		if hh.SyncHang { // loaded machine / libp2p timeout: one retry, then reported as inconclusive by the check
+		// real loopback libp2p with a 3 s response timeout: under load a run can hang or fail for reasons outside the code under
+		// test; a run that does not show the behaviour of its kind is repeated up to 2 more times, the last one is reported
+		var hh *Hist
+		for attempt := 1; attempt <= 3; attempt++ {
 			hh = syncViaProcess(r, si, kinds[si%len(kinds)])
+			hh.Attempts = attempt
+			hh.Shows = syncShowsKind(hh)
+			o.Put(hh) // every attempt is a history whose invariants are checked
+			if hh.Shows {
+				break
+			}
 		}
-		o.Put(hh)
 	}
 	for hi := 0; hi < *hists; hi++ {
 		opt := exh.Options{N: 1 + r.Intn(5)}
+		if hi%2 == 1 && opt.N < 2 {
+			opt.N = 2 // these histories end with a tie-break: two generators needed
+		}
 		if opt.N >= 2 && r.Bool() {
 			// unequal BFT weights (thresholds stay at two thirds of the total): finality advances in jumps
 			for i := 0; i < opt.N; i++ {
@@ -560,8 +724,14 @@ func main() {
 				d.observe(s)
 			}
 		}
-		// last: the dup-tx scenario (C05's known finding seen from C04: the finalized block's body becomes unretrievable)
-		d.dupTx()
+		// last: every second history ends with a tie-break through Executer.process (valid / invalid competitor alternately; the
+		// competitor sits in the current wall-clock slot, so nothing can follow it), the others with the dup-tx scenario (C05's
+		// known finding seen from C04: the finalized block's body becomes unretrievable)
+		if hi%2 == 1 {
+			d.tieBreak(hi%4 == 1)
+		} else {
+			d.dupTx()
+		}
 		o.Put(h)
 	}
 }
